@@ -546,3 +546,132 @@ def edges_where(body, place_pred, rel, bound):
             if rr == rel and cc == bound:
                 res |= edges
     return res
+
+
+def reach_assuming_field(body, field_pred, value, stop_blocks=()):
+    """Blocks reachable from entry when the integer field selected by field_pred holds `value` on entry and every
+    other (non-constant) operand it is compared with is different from it: switches on a load of the field (directly,
+    through copies, or as a component of an in-place tuple) follow only the matching arm, Eq/Ne tests of the field
+    against a constant are decided, against a non-constant place they are taken as unequal.  Exploration does not
+    continue past `stop_blocks` (the stores that would invalidate the assumption)."""
+    du = defuse(body)
+    cfg = body.cfg
+    stop = set(stop_blocks)
+
+    def is_field(op):
+        p = op_place(op)
+        return p is not None and field_pred(root_place(body, p))
+
+    def decide(bi):
+        """Index list of feasible successor slots of the switch in block bi, or None for all."""
+        t = body.blocks[bi]["term"]
+        p = op_place(t["discr"])
+        if p is None:
+            return None
+        if field_pred(root_place(body, p)):
+            return [t["values"].index(value)] if value in t["values"] else [len(t["values"])]
+        neg = False
+        cur = p
+        rv = None
+        for _ in range(16):
+            if cur.get("p"):
+                break
+            d = du.single_def(cur["l"])
+            if not d or d[0] != "stmt":
+                break
+            r2 = d[3]["rv"]
+            if r2["k"] == "unop" and r2["op"] == "Not" and op_place(r2["a"]) is not None:
+                neg = not neg
+                cur = op_place(r2["a"])
+            elif r2["k"] == "use" and op_place(r2["op"]) is not None:
+                cur = op_place(r2["op"])
+                if field_pred(root_place(body, cur)):
+                    return [t["values"].index(value)] if value in t["values"] else [len(t["values"])]
+            elif r2["k"] == "binop" and r2["op"] in ("Eq", "Ne"):
+                rv = r2
+                break
+            else:
+                break
+        if rv is None:
+            return None
+        fa, fb = is_field(rv["a"]), is_field(rv["b"])
+        if not (fa or fb):
+            return None
+        other = rv["b"] if fa else rv["a"]
+        c = op_const(other)
+        equal = (c == value) if c is not None else False
+        truth = equal if rv["op"] == "Eq" else (not equal)
+        if neg:
+            truth = not truth
+        want = 1 if truth else 0
+        if want in t["values"]:
+            return [t["values"].index(want)]
+        return [len(t["values"])]
+
+    def truth_of_operand(op, oracle, depth=0):
+        """Possible truth values {0,1} of a bool operand under the assumption (None = unknown)."""
+        p = op_place(op)
+        if p is None:
+            c = op_const(op)
+            return {1 if c else 0} if c is not None else None
+        if p.get("p") or depth > 8:
+            return None
+        defs = du.defs.get(p["l"], [])
+        if not defs:
+            return None
+        vals = set()
+        for d in defs:
+            if d[1] not in oracle:
+                continue   # this definition cannot have run
+            if d[0] != "stmt":
+                return None
+            r2 = d[3]["rv"]
+            if r2["k"] == "use":
+                v = truth_of_operand(r2["op"], oracle, depth + 1)
+            elif r2["k"] == "unop" and r2["op"] == "Not":
+                v = truth_of_operand(r2["a"], oracle, depth + 1)
+                v = None if v is None else {1 - x for x in v}
+            elif r2["k"] == "binop" and r2["op"] in ("Eq", "Ne"):
+                fa, fb = is_field(r2["a"]), is_field(r2["b"])
+                if not (fa or fb):
+                    return None
+                c = op_const(r2["b"] if fa else r2["a"])
+                equal = (c == value) if c is not None else False
+                v = {1 if (equal if r2["op"] == "Eq" else not equal) else 0}
+            else:
+                return None
+            if v is None:
+                return None
+            vals |= v
+        return vals
+
+    oracle = set()
+    for _round in range(8):
+        seen = set()
+        work = [0]
+        while work:
+            bi = work.pop()
+            if bi in seen or bi not in cfg.reach:
+                continue
+            seen.add(bi)
+            if bi in stop:
+                continue
+            succs = cfg.succ.get(bi, [])
+            t = body.blocks[bi]["term"]
+            slots = None
+            if t["k"] == "switch":
+                slots = decide(bi)
+                if slots is None and op_place(t["discr"]) is not None and body.place_ty(op_place(t["discr"])).k == "bool":
+                    # a boolean temporary assigned on several arms (`let c = a && b`)
+                    tv = truth_of_operand(t["discr"], oracle | seen)
+                    if tv is not None:
+                        slots = []
+                        for v in tv:
+                            slots.append(t["values"].index(v) if v in t["values"] else len(t["values"]))
+            for k, sblk in enumerate(succs):
+                if slots is None or k in slots:
+                    work.append(sblk)
+        if seen <= oracle:
+            break
+        oracle |= seen
+    return oracle
